@@ -2,7 +2,7 @@
 """Prints the markdown table of seeded changes (DESIGN.md 12.5) from seeded/*/meta.json."""
 import glob, json, os
 rows = []
-for d in sorted(glob.glob("/verif/seeded/C??-?") + glob.glob("/verif/seeded/X?-?")):
+for d in sorted(glob.glob("/verif/seeded/C??-?") + glob.glob("/verif/seeded/X?-?") + glob.glob("/verif/seeded/R8-C??")):
     m = json.load(open(os.path.join(d, "meta.json")))
     sid = os.path.basename(d)
     summ = (m.get("summary") or "").replace("\n", " ").replace("|", "/")
